@@ -1,10 +1,10 @@
 CONSTANTS
   MaxAttrs = 2
   MaxKids = 2
-  AttrKinds = {"call", "member", "class", "style", "onClick", "spread", "spreadid", "objlit", "on", "dir", "vmodel", "vmodelc"}
+  AttrKinds = {"call", "member", "class", "style", "onClick", "spread", "spreadid", "objlit", "on", "dir", "vmodel", "vmodelc", "vmodels"}
   KidKinds = {"call", "member", "trivial", "text", "elem", "comp", "direlem"}
   OptCombos = {"TTT", "FFF", "TFF"}
-  AttrKinds3 = {"call", "member", "class", "style", "onClick", "spread", "on", "objlit", "vmodel"}
+  AttrKinds3 = {"call", "member", "class", "style", "onClick", "spread", "on", "objlit", "vmodel", "vmodels"}
   KidKinds3 = {"call", "comp", "elem"}
 INIT Init
 NEXT Next
